@@ -107,6 +107,29 @@ GENERATED_PROGRAMS = [
 
 # a call hoisted out of a larger expression writes into a temporary; only a function that is the WHOLE right-hand side may write
 # straight into the assignment target - otherwise the tool's temporary and the user's variable would be one identifier
+# a scalar and an array of one name are two variables: with --initialize-vars the scalar is cleared whether or not an array of
+# its name exists (DIMmed or implicit)
+INIT_SET_PROGRAMS = [
+    ("10 A(1)=1:A=2", ["A"]), ("10 DIM A(3):A=2:A(1)=A", ["A"]), ("10 DIM A$(5):A$=\"X\":A$(1)=A$", ["A$"]), ("10 A$(1)=\"Y\":A$=\"X\"", ["A$"]),
+    ("10 DIM A(3),B$(2):A=1:B$=\"Q\":A(1)=A:B$(1)=B$", ["A", "B$"]), ("10 A=1:B$=\"X\"", ["A", "B$"]), ("10 DIM A(3):A(1)=1", []),
+]
+
+
+def init_set_impl(text):
+    from coco.b09.compiler import convert
+    try:
+        out = convert(text, initialize_vars=True)
+    except Exception as e:  # noqa: BLE001
+        return "rejected " + type(e).__name__
+    head = []
+    for line in out.split("\n"):
+        if re.match(r"^\d+ ", line):
+            break
+        head.append(line)
+    got = re.findall(r'(?m)^([A-Za-z_][A-Za-z0-9_]*\$?) := (?:0\.0|"")$', "\n".join(head))
+    return "ok " + hexs(",".join(sorted(set(got))).encode())
+
+
 RESULT_CELL_PROGRAMS = [
     "10 S=INT(X)+S", "10 S=INT(X)+INT(S/2)", "10 S=INT(X)*(S-1)", "10 S=S+INT(X)", "10 S=INT(S)+1", "10 S=INT(X)", "10 S$=STR$(X)+S$",
     "10 S$=S$+STR$(X)", "10 S=VAL(A$)-S", "10 S=BUTTON(0)+S*2", "10 S$=HEX$(S)+S$", "10 P=INSTR(1,A$,B$)+P", "10 S=INT(X):S=INT(X)+S",
@@ -158,6 +181,8 @@ def cases(tier):
         out.append({"fmt": "names", "kind": "generated-ident", "name": "A", "text": t, "rx": "", "req": "ping"})
     for t in RESULT_CELL_PROGRAMS:
         out.append({"fmt": "names", "kind": "result-cell", "name": "S", "text": t, "rx": "", "req": "ping"})
+    for t, want in INIT_SET_PROGRAMS:
+        out.append({"fmt": "names", "kind": "init-set", "name": "A", "text": t, "rx": "", "req": "ping", "want": want})
     for n in ns:
         tpls = TEMPLATES if tier == "thorough" or n in RESERVED or len(n) <= 2 and r.randrange(4) == 0 else r.sample(TEMPLATES, 5)
         for kind, tpl, rx in tpls:
@@ -170,9 +195,9 @@ def run(tier):
     cs = cases(tier)
     model = run_driver([c["req"] for c in cs])
     impl = [generated_case_impl(c["text"]) if c["kind"] == "generated-ident" else result_cell_impl(c["text"]) if c["kind"] == "result-cell"
-            else impl_ident(c["text"], c["rx"]) for c in cs]
+            else init_set_impl(c["text"]) if c["kind"] == "init-set" else impl_ident(c["text"], c["rx"]) for c in cs]
     for k, c in enumerate(cs):
-        if c["kind"] in ("generated-ident", "result-cell"):
+        if c["kind"] in ("generated-ident", "result-cell", "init-set"):
             model[k] = impl[k]          # no model side: the rule is the oracle's
     # names the grammar refuses (they start with a keyword) are outside the model's domain
     for k, i in enumerate(impl):
@@ -208,6 +233,15 @@ GENERATED = {"display", "play", "pid", "erno", "errnum", "ERNO", "joy0x", "joy0y
 
 
 def oracle(case, impl):
+    if case["kind"] == "init-set":
+        if not impl.startswith("ok "):
+            return f"{case['text']!r} is not converted: {impl}"
+        from common import unhex
+        got = [x for x in unhex(impl[3:]).decode().split(",") if x]
+        if got != sorted(case["want"]):
+            return (f"{case['text']!r}: with --initialize-vars the scalars cleared are {got}, the program's scalars are {sorted(case['want'])} "
+                    f"(a scalar and an array of one name are two variables)")
+        return None
     if case["kind"] == "result-cell":
         if not impl.startswith("ok "):
             return None if impl.startswith("rejected") else f"{case['text']!r}: {impl}"
